@@ -248,17 +248,18 @@ package anytype
 
 //@ func (*list).Concat [C05 C09 C15]
 //@   requires invL(ego)
-//@   requires plain-arg: isVList(another) && okVal(another) && plain(vlref(another))
+//@   requires arg-ok: another == VNil || (isVList(another) && okVal(another))
 //@   let a := list(vlref(another))
-//@   requires fits-in-memory: len(ego.val) + len(a.val) <= MaxInt
+//@   let good := isVList(another) && plain(vlref(another))
+//@   requires fits-in-memory: isVList(another) ==> len(ego.val) + len(a.val) <= MaxInt
 //@   assigns  nothing
-//@   panics_iff false
+//@   panics_if !good
 //@   plet r := list(vlref(result))
 //@   ensures  new: isVList(result) && fresh(r) && plain(r) && invL(r) && r.ptr == result
 //@   ensures  own-storage: fresh(arr(r.val)) [C09 C05 C15]
-//@   ensures  len: len(r.val) == len(ego.val) + len(a.val)
+//@   ensures  len: good ==> len(r.val) == len(ego.val) + len(a.val)
 //@   ensures  left: forall j int :: 0 <= j && j < len(ego.val) ==> r.val[j] == old(ego.val[j])
-//@   ensures  right: forall j int :: len(ego.val) <= j && j < len(ego.val) + len(a.val) ==> r.val[j] == old(a.val[j - len(ego.val)])
+//@   ensures  right: good ==> (forall j int :: len(ego.val) <= j && j < len(ego.val) + len(a.val) ==> r.val[j] == old(a.val[j - len(ego.val)]))
 
 //@ func NewList [C05 C12 C09 C19]
 //@   requires args-ok: forall j int :: 0 <= j && j < len(values) ==> okArg(values[j])
@@ -1626,10 +1627,10 @@ package anytype
 
 //@ func (*object).Merge callbacks [C06 C09]
 //@   requires invO(ego)
-//@   requires arg: isVObj(another) && okVal(another)
+//@   requires arg: another == VNil || (isVObj(another) && okVal(another))
 //@   let a := obj(impl(voref(another)))
 //@   assigns  nothing
-//@   panics_iff false
+//@   panics_if !isVObj(another)
 //@   plet r := obj(voref(result))
 //@   ensures  new: isVObj(result) && fresh(r) && plain(r) && invO(r) && r.ptr == result && fresh(mapid(r.val)) [C09 C06]
 //@   ensures  keys: forall k str :: {has(r.val, k)} has(r.val, k) == (old(has(ego.val, k)) || old(has(a.val, k)))
